@@ -15,7 +15,8 @@ EXPLANATION = (
     " (e) A suppressed PTR takes its SRV/TXT/address additionals with it."
     " (f) Everything reachable from handle_query queues answers only through DnsOutgoing::add_answer. (g) A matched cached record always gets reset_ttl(incoming), also for a goodbye."
     " (h) matches() compares like with like."
-    " (i) handle_query considers every question (shared with C06l). (j) A known-answer copy that had update_ttl(now) applied is handed to the packet with write time 0: the age is taken off once.")
+    " (i) handle_query considers every question (shared with C06l). (j) A known-answer copy that had update_ttl(now) applied is handed to the packet with write time 0: the age is taken off once."
+    " (k) as C06p: a suppressed answer does not hold the others back.")
 UNDECIDED = ["behaviour at the boundary values on the wire (that is what F12 pins to the formula, no more)",
              "responder handling of multi-packet known-answer lists (TC bit)"]
 
@@ -107,6 +108,11 @@ def clause_a(ctx, P, pre="C10a"):
     detail = ""
     if len(cmpx) == 1:
         e = cmpx[0][2]
+        # any spelling of the comparison (`half < other.ttl`): take the `>` form
+        for (a2, o2) in equivalent_forms(e, True):
+            if o2 is True and a2[0] == "binop" and a2[1] == "Gt":
+                e = a2
+                break
         detail = show(e)
         # other.ttl > self.ttl / 2
         l, r = e[2], e[3]
@@ -122,7 +128,7 @@ def clause_a(ctx, P, pre="C10a"):
         alts = set()
         for r in rets:
             alts |= strip(r)
-        okr = all((a[0] == "const" and a[1] in (0, False)) or (a[0] == "binop" and a[1] == "Gt") for a in alts)
+        okr = all((a[0] == "const" and a[1] in (0, False)) or (a[0] == "binop" and a[1] in ("Gt", "Lt")) for a in alts)
         ctx.ob(pre + ".conjunction", f.name, okc and okr, f.loc(), "result = matches(other) && (ttl comparison): false constant or the comparison itself")
         a1 = tr.operand(m[0][1]["args"][1], endpos(f, m[0][0]))
         ctx.ob(pre + ".matches-other", f.name, strip(a1) == {("param", 2)}, f.loc(), "matches() is applied to the listed answer")
@@ -134,7 +140,22 @@ def clause_a(ctx, P, pre="C10a"):
     str_ = tracer(P, sb)
     sa = calls_to(sb, "DnsRecordExt::suppressed_by_answer")
     ok = len(sa) == 1
-    if ok:
+    if not sa:
+        # `msg.answers.iter().any(|known| self.suppressed_by_answer(known))`: the same existential, spelled with the adaptor
+        rets = [str_.local(0, endpos(sb, rb)) for rb in sb.exits()]
+        ok = bool(rets)
+        for r in rets:
+            anys = [x for x in walk(r) if x[0] == "call" and method(strip_generics(x[1])) == "any" and len(x[2]) >= 2]
+            good = False
+            for x in anys:
+                over = x[2][0]
+                cl = [c for c in walk(x[2][1]) if c[0] == "closure" and c[1] in P.fns]
+                if expr_mentions_field(over, "answers", "DnsIncoming") and not expr_mentions_field(over, "authorities", "DnsIncoming") and \
+                        not expr_mentions_field(over, "additional", "DnsIncoming") and cl and \
+                        any(name_matches(cname(t), "DnsRecordExt::suppressed_by_answer") for _b, t in P.fns[cl[0][1]].calls()):
+                    good = True
+            ok = ok and good and all(a[0] == "call" for a in strip(r))
+    elif ok:
         e = str_.operand(sa[0][1]["args"][1], endpos(sb, sa[0][0]))
         ok = expr_mentions_field(e, "answers", "DnsIncoming") and not expr_mentions_field(e, "authorities", "DnsIncoming") and not expr_mentions_field(e, "additional", "DnsIncoming")
         e_t = guard_edges(P, sb, lambda atom, outcome, bb: atom[0] == "call" and atom[3] == (sb.name, sa[0][0]) and outcome is True)
